@@ -78,12 +78,46 @@ def plan(tier, seed):
                              sizes=([1000, 2000] if kind == "DRR" else [1, 2]), N=6, gaps=["S", 1], order=0, map="id"))
     # bursts of one flow: with a zero vtick all of them carry one stamp
     cfgs.append(dict(sched="VC", table=[[0, 0], [1, 1]], rate=8, flows=[0, 1], sizes=[1], N=6 if quick else 7, gaps=["S", 1], order=0, map="id"))
+    # one long deterministic workload per scheduler (state that only breaks after ~1000 rounds / packets)
+    for kind, tabs in tables.items():
+        cfgs.append(dict(sched=kind, table=tabs[0], rate=(8000 if kind == "DRR" else 8), flows=[0, 1],
+                         sizes=([1000, 2000] if kind == "DRR" else [1, 2]), N=0, gaps="G3", order=0, map="id", endurance=3000))
     return {"cfgs": cfgs, "budget": None,
-            "bound": "N<=%d full menu (21/packet), N<=%d reduced menu%s; 6 schedulers x tables x rates x creation order; "
+            "bound": "one fixed workload of 3000 packets per scheduler; N<=%d full menu (21/packet), N<=%d reduced menu%s; 6 schedulers x tables x rates x creation order; "
                      "monitor in/excl; flow->class maps identity/all-to-one/swap" % (nfull, nfull + 1, "" if quick else ", N<=6 on {same,+1}; 3 flows N<=4")}
 
 
+class Fixed:
+    """a chooser-like object that replays a fixed workload (no branching)"""
+
+    def __init__(self, seq):
+        self.seq = seq; self.i = 0
+
+    def choose(self, n, label=None, free=False):
+        v = self.seq[self.i] if self.i < len(self.seq) else 0
+        self.i += 1
+        return v
+
+
 def execute(ch, cfg):
+    if cfg.get("endurance"):
+        # menu index: 1 + gap*|F||S| + flow*|S| + size ; pattern: bursts of 3 then a pause, flows and sizes alternating
+        n = cfg["endurance"]
+        nf, ns = len(cfg["flows"]), len(cfg["sizes"])
+        seq = []
+        for i in range(n):
+            gap = 0 if i % 3 else (1 if i % 2 else 2)        # G3 = [S, 1, 2]
+            if i == 0:
+                gap = 0
+            seq.append(1 + gap * nf * ns + (i % nf) * ns + ((i // 2) % ns))
+        cfg = dict(cfg, N=n)
+        ch = Fixed(seq)
+        run = S.SchedRun(ch, cfg, watch_counters=False)
+        res = S.new_result(run)
+        res.digest = (len(run.net.deps), run.error)
+        res.nontrivial = True
+        S.check_common(run, res, "C12")
+        return res
     run = S.SchedRun(ch, cfg)
     res = S.new_result(run)
     net = run.net
